@@ -4,7 +4,9 @@
      oracle : the first <ns> calls are answered by the script (f_k, d_k); later calls by function <fid>
      criterion <ck>: 0 |fv| < cp   1 |dx| < cp   2 true   3 false   4 i >= cp (cp read as a number)
    answer  : <converged 0|1> <x> <i> n <ncalls> <arg_0> ... c <ncrit> <fv> <dx>
-             (fv, dx: the values seen by the last convergence test, compared only when converged) -/
+             (fv, dx: the values seen by the last convergence test, compared only when converged)
+             followed by ` | br <b_0> ...`: the bracket `xmin:xmax` held at each call when a root is
+             bracketed, `-` otherwise (model-side information) -/
 import TfelVerif.C09.Model
 open TfelVerif.C09
 
@@ -90,7 +92,10 @@ def answer (line : String) : String :=
       let orc : Oracle Float := fun k x => if h : k < arr.size then arr[k] else fn fid x
       let r := run floatNum orc (critOf ck cp) x0 im xmin0 xmax0
       let args := String.intercalate " " (r.calls.map (fun c => showBits c.arg))
-      s!"{if r.converged then 1 else 0} {showBits r.x} {r.i} n {r.ncalls}{if r.calls.isEmpty then "" else " "}{args} c {r.ncrit} {showBits r.fv} {showBits r.dx}"
+      -- model-side information: the bracket held at each call when a root is bracketed ("-" otherwise)
+      let brs := String.intercalate " " (r.calls.map (fun c =>
+        if bracketed floatNum c.br then s!"{showBits c.br.xmin}:{showBits c.br.xmax}" else "-"))
+      s!"{if r.converged then 1 else 0} {showBits r.x} {r.i} n {r.ncalls}{if r.calls.isEmpty then "" else " "}{args} c {r.ncrit} {showBits r.fv} {showBits r.dx} | br {brs}"
     | _, _, _, _, _, _, _, _, _ => "bad-op"
   | _ => "bad-op"
 
